@@ -453,3 +453,4 @@ Definition misc_create_time (m : misc) : option Z :=
 (* memory.get_memory_at_address::<u64>(sp) on region k of the memory list: Some iff 8 bytes are readable there *)
 Definition get_u64 (mems : list (Z * Z)) (k sp : Z) : option unit :=
   if readable_u64 mems k sp then Some tt else None.
+Definition or_else_optz (a : option Z) (f : unit -> option Z) : option Z := match a with Some _ => a | None => f tt end.
